@@ -223,12 +223,38 @@ def oracle_C03(spec, tr):
     return out
 
 
+def spec_self_locking(spec, tr):
+    """does the assembled chain contain a worm mating with f > cos(alpha) tan(beta) (decided from the
+    declared data, not from the powertrain's own flag); None when within rounding of the threshold"""
+    names = [e.get('name', f'e{i + 1}') for i, e in enumerate(spec['elems'])]
+    chain = set(tr['names'][1:])
+    res = False
+    for rel in spec['rels']:
+        if rel[0] != 'worm':
+            continue
+        a, b = spec['elems'][rel[1] - 1], spec['elems'][rel[2] - 1]
+        worm = a if a['type'] == 'wormgear' else b
+        if worm.get('name') not in chain:
+            continue
+        alpha = float(F(worm['pa'][0]) * SI['Angle'][worm['pa'][1]])
+        beta = float(F(worm['helix'][0]) * SI['Angle'][worm['helix'][1]])
+        thr = math.cos(alpha) * math.tan(beta)
+        if abs(rel[3] - thr) <= 1e-9:
+            return None
+        if rel[3] > thr:
+            res = True
+    return res
+
+
 def oracle_C13(spec, tr):
     out = []
     n = n_inst(tr)
     E = tr['els']
     locked = tr['locked'] if len(tr['locked']) >= n else None
-    if not tr['sl']:
+    sl = spec_self_locking(spec, tr)
+    if sl is None:
+        return out
+    if not sl:
         if locked is not None and any(locked[:n]):
             out.append(('a powertrain without self-locking mating was clamped', {'instant': locked.index(True)}))
         return out
